@@ -7,14 +7,18 @@ package escape
 /*@
 ghostvar gl int
 ghostvar ga seq
+ghostvar gguard bool
 
 assume func utf8.DecodeLastRune(p []byte) (r rune, size int)
   ensures 0 <= size && size <= 4
   ensures len(p) == 0 <==> size == 0
   ensures (len(p) >= 1 && p[len(p)-1] == 226) ==> (r == 65533 && size == 1)
   ensures (len(p) >= 2 && p[len(p)-2] == 226 && p[len(p)-1] == 128) ==> (r == 65533 && size == 1)
+  -- (RuneError, 1) is how the function reports an invalid or truncated encoding; a valid U+FFFD has size 3
+  ensures (r == 65533 && size == 1) <==> badTail(p, len(p))
 
 func InternalEscapeBytes(b []byte, startLoc int, breakNewLines, strip bool) (res []byte)
+  modifies alloc, gl, ga, gguard
   requires 0 <= startLoc && startLoc <= len(b)
   requires !strip ==> WFP(b, startLoc) && LS(b, startLoc)
   requires !strip && startLoc < len(b) ==> clean(b, startLoc)
@@ -101,6 +105,11 @@ func InternalEscapeBytes(b []byte, startLoc int, breakNewLines, strip bool) (res
   ensures [C01,C10] !strip ==> WFP(res, len(res)) && dep(res, len(res)) == old(dep(b, startLoc))
   ensures [C03,C10] !strip ==> LS(res, len(res))
   ensures [C01,C10] !strip ==> clean(res, len(res))
+  -- the single '?' guard is appended exactly when the input ends in an invalid or truncated encoding
+  ghost gguard = false at entry
+  ghost gguard = true before "res = append(res, escape...)" #3
+  ensures [C09,C10] !strip ==> (gguard <==> badTail(b, len(b)))
+  ensures [C09,C10] gguard ==> len(res) >= 1 && res[len(res)-1] == 63
   ensures [C13] memUnchanged()
   ensures (!strip ==> res == b) || fresh(res)
   ensures ref(res) == ref(b) || fresh(res)
